@@ -10,6 +10,10 @@ U64 = (1 << 64) - 1
 SKIP = ("skip",)
 
 
+class _DecodeFailed(Exception):
+    pass
+
+
 class Cfg:
     def __init__(self, stack="client", key_prefix=b"", default_noreply=True, serde=None,
                  encoding="ascii", allow_unicode_keys=False, item_max=1 << 20, version=b"1.6.20"):
@@ -99,7 +103,10 @@ class ApiModel:
 
     def decode_value(self, key, data, flags):
         if self.cfg.serde is not None:
-            return self.cfg.serde.deserialize(key, data, flags)
+            try:
+                return self.cfg.serde.deserialize(key, data, flags)
+            except Exception as e:
+                raise _DecodeFailed(type(e).__name__)
         return data
 
     def _nr(self, noreply, default=None):
@@ -130,7 +137,12 @@ class ApiModel:
         fn = getattr(self, "op_" + m, None)
         if fn is None:
             return SKIP
-        return fn(*a, **k)
+        try:
+            return fn(*a, **k)
+        except _DecodeFailed as e:
+            # the configured deserializer rejects what the server holds: the call is documented to let that
+            # exception through (or, with ignore_exc, to report a miss)
+            return ("raise", e.args[0])
 
     def _store(self, verb, key, value, expire, noreply, flags, cas=None):
         wk = self.wire(key)
